@@ -39,6 +39,7 @@ LEVEL_TEXT = (
     "accumulate over cells. Decreasing bins are reversed and the result reversed back along the last axis; the wrapper sizes and labels the new dimension as "
     "len(target)-1 mid-points; ill-posed requests are refused. Rounding, numba and dask behaviour are not decided."
 )
+LEVEL_TEXT += " Also decided: without target_data the cell bounds handed to the kernel are the grid's own coordinate on the outer position, as stored."
 LEVEL_NOTE = "Trusted: numba = Python semantics for this kernel; exact arithmetic. numba is not installed here, so no test executes this module at all."
 
 import os as _os
